@@ -189,9 +189,17 @@ class SMUserList(UserList, ABC):
 
         elif isinstance(arg, (list, tuple)):
             # it's a list of things
-            if isinstance(arg[0], np.ndarray):
+            if len(arg) == 0:
+                # empty list, an object with no values
+                self.data = []
+
+            elif isinstance(arg[0], np.ndarray):
                 # possibly a list of numpy arrays
-                self.data = [self._import(x, check=check) for x in arg]
+                data = [self._import(x, check=check) for x in arg]
+                if any(x is None for x in data):
+                    # at least one element is not a valid value for this class
+                    return False
+                self.data = data
 
             elif type(arg[0]) == type(self):
                 # possibly a list of objects of same type
